@@ -9,7 +9,8 @@ THEOREMS = ["quote_constants", "signing_bytes_injective", "hash_covers_signed_fi
             "timestamp_mutation_refuted", "timestamp_mutation_fails_outside_known_class",
             "verify_for_iff", "payees_are_parsed_ids", "expired_iff", "expired_true_iff",
             "historical_flags_regression", "historical_verify_iff",
-            "history_invariant", "regression_flagged", "regression_between_refuted"]
+            "history_invariant", "regression_flagged", "regression_between_refuted",
+            "quote_gap_constant", "storecost_ok_iff", "forwarded_quotes_verify", "forged_quote_not_forwarded"]
 RULE = ("quotes built from real ed25519 keys: valid quotes; every single-field and random double-field "
         "mutation of the presented fields against the signed fields (content, timestamp at +-1 ns / same "
         "second / next second / +-1 h, each metrics field incl. None<->Some and msgpack format boundaries "
@@ -21,7 +22,10 @@ RULE = ("quotes built from real ed25519 keys: valid quotes; every single-field a
         "historical pairs around live_time_diff = time_diff + margin {-1,0,+1}, regressions of live_time / "
         "payment count, equal and future timestamps; delivery sequences (2-9 steps, 1-3 interleaved peers, in-order / "
         "shuffled / stale-then-newest / in-between / equal-timestamp, injected regressions) through the real "
-        "SwarmDriver::handle_local_cmd(QuoteVerification).  A case is distinct/non-trivial by (op, family, outcome)")
+        "SwarmDriver::handle_local_cmd(QuoteVerification); batches for ant_node quotes_verification (this node valid / expired / "
+        "badly signed / absent among 1-4 other quoters: genuine, forged fields under a stale genuine signature, wrong claimed "
+        "peer, other content, inside / outside the 10 s window, junk signature, undecodable key) and verify_quote_for_storecost "
+        "cases (address match / mismatch / peer address, expiry boundary, signature).  A case is distinct/non-trivial by (op, family, outcome)")
 ASSUMPTIONS = [
     "ed25519 signatures are modelled symbolically (Sig key msg | Junk): EUF-CMA plus 'a signature string is valid "
     "for at most one (key, message)'; the harness knows which key signed which bytes and reports that symbol",
@@ -30,7 +34,8 @@ ASSUMPTIONS = [
     "SystemTime::now() is an explicit model argument; generated timestamps keep >= 0.2 s distance from every "
     "second boundary the code floors at, so real elapsed microseconds cannot flip a result",
     "create_quote_for_storecost is crate-private (needs a running Network): the harness signs exactly as it does "
-    "(bytes_for_signing + node key)",
+    "(bytes_for_signing + node key); quotes_verification / verify_quote_for_storecost are driven through the guarded hook "
+    "ant_node::verif_hooks_quote on a Network built over plain channels, the emitted LocalSwarmCmd is read from the channel",
     "verify_peer_quote is driven through a client-mode SwarmDriver and the guarded hook ant_networking::verif_hooks::cmd "
     "(handle_local_cmd pass-through, quotes_history / node_issues readers); the harness clears the peer's issue list "
     "around every delivery because record_node_issue records at most one issue per ten seconds"]
@@ -436,6 +441,104 @@ def gen_history(rng, n):
     return cases
 
 
+NONTS = ["addr", "crs", "mr", "rpc", "lt", "nd", "ns"]
+
+
+def gen_duty(rng, n):
+    """batches for ant_node quotes_verification: this node (key `self`) among 1-5 quoters"""
+    cases = []
+    for i in range(n):
+        me = rng.randrange(NKEYS)
+        f0 = rnd_fields(rng)
+        self_age = rng.choice([0, 5, 60, 3500])
+        f0["ts"] = {"rel_ns": -(self_age * NS + NS // 2)}
+        self_kind = rng.choice(["valid"] * 6 + ["expired", "badsig", "stale-fields", "absent", "foreign-key-field"])
+        entries = []
+        if self_kind != "absent":
+            fs = copy.deepcopy(f0)
+            if self_kind == "expired":
+                fs["ts"] = {"rel_ns": -(3700 * NS + NS // 2)}
+                self_age = 3700
+            if self_kind == "badsig":
+                q = quote_spec(fs, {"key": me}, {"key": (me + 1) % NKEYS})
+            elif self_kind == "stale-fields":
+                q = quote_spec(mutate(fs, rng.choice(NONTS), rng), {"key": me}, {"key": me, "of": fs})
+            elif self_kind == "foreign-key-field":
+                q = quote_spec(fs, {"key": (me + 2) % NKEYS}, {"key": me})    # Network::verify ignores pub_key
+            else:
+                q = valid_quote(fs, me)
+            entries.append({"peer": {"key": me}, "q": q})
+        for _ in range(rng.choice([1, 2, 3, 4])):
+            k = (me + 1 + rng.randrange(NKEYS - 1)) % NKEYS
+            other = (k + 1 + rng.randrange(NKEYS - 1)) % NKEYS
+            f = rnd_fields(rng)
+            f["content"] = f0["content"]
+            kind = rng.choice(["genuine", "genuine", "forged", "forged", "wrong-claimed", "other-content", "gap-out", "gap-in",
+                               "junk-sig", "bad-pk", "wrong-signer", "self-again"])
+            gap = rng.choice([-9, -3, 0, 3, 9])
+            if kind == "gap-out":
+                gap = rng.choice([-11, 11, 60, -60])
+            if kind == "gap-in":
+                gap = rng.choice([-9, 9])
+            f["ts"] = {"rel_ns": -((self_age - gap) * NS + NS // 2)} if self_age - gap >= 0 else {"rel_ns": (gap - self_age) * NS - NS // 2}
+            peer = {"key": k}
+            if kind in ("genuine", "gap-out", "gap-in"):
+                q = valid_quote(f, k)
+            elif kind == "forged":
+                # the claimed peer's real key and a signature it really made -- over other field values
+                q = quote_spec(mutate(f, rng.choice(NONTS), rng), {"key": k}, {"key": k, "of": f})
+            elif kind == "wrong-claimed":
+                q = valid_quote(f, other)
+            elif kind == "other-content":
+                f["content"] = rnd_hex_(rng, 32)
+                q = valid_quote(f, k)
+            elif kind == "junk-sig":
+                q = quote_spec(f, {"key": k}, {"raw": rnd_hex_(rng, 64)})
+            elif kind == "bad-pk":
+                q = quote_spec(f, {"raw": rng.choice(BAD_PKS)}, {"key": k})
+            elif kind == "wrong-signer":
+                q = quote_spec(f, {"key": k}, {"key": other})
+            else:
+                peer, q = {"key": me}, valid_quote(f, me)
+            entries.append({"peer": peer, "q": q})
+        if rng.random() < 0.5:
+            rng.shuffle(entries)
+        cases.append({"op": "duty", "family": self_kind, "nkeys": NKEYS, "self": me, "quotes": entries})
+    return cases
+
+
+def rnd_hex_(rng, n):
+    return bytes(rng.randrange(256) for _ in range(n)).hex()
+
+
+def gen_storecost(rng, n):
+    cases = []
+    for i in range(n):
+        me = rng.randrange(NKEYS)
+        f = rnd_fields(rng)
+        f["ts"] = {"rel_ns": -(rng.choice([0, 5, 3599, 3600, 3601, 7200]) * NS + NS // 2)}
+        if rng.random() < 0.1:
+            f["ts"] = {"rel_ns": 5 * NS + NS // 2}
+        kind = rng.choice(["valid", "valid", "valid", "other-addr", "peer-addr", "badsig", "stale-fields", "junk"])
+        addr = {"chunk": f["content"]}
+        q = valid_quote(f, me)
+        if kind == "other-addr":
+            addr = {"chunk": rnd_hex_(rng, 32)}
+        elif kind == "peer-addr":
+            addr = {"peer": {"key": rng.randrange(NKEYS)}}
+            if rng.random() < 0.5:
+                f["content"] = "00" * 32          # as_xorname() of a peer address defaults to zeros
+                q = valid_quote(f, me)
+        elif kind == "badsig":
+            q = quote_spec(f, {"key": me}, {"key": (me + 1) % NKEYS})
+        elif kind == "stale-fields":
+            q = quote_spec(mutate(f, rng.choice(NONTS), rng), {"key": me}, {"key": me, "of": f})
+        elif kind == "junk":
+            q = quote_spec(f, {"key": me}, {"raw": rnd_hex_(rng, rng.choice([0, 64]))})
+        cases.append({"op": "storecost", "family": kind, "nkeys": NKEYS, "self": me, "q": q, "addr": addr})
+    return cases
+
+
 def gen(ctx):
     rng = ctx.rng
     quick = ctx.tier == "quick"
@@ -444,6 +547,8 @@ def gen(ctx):
     cases += gen_expiry(rng, 60 if quick else 600)
     cases += gen_historical(rng, 160 if quick else 3000)
     cases += gen_history(rng, 150 if quick else 2500)
+    cases += gen_duty(rng, 150 if quick else 2500)
+    cases += gen_storecost(rng, 60 if quick else 1000)
     return cases
 
 
@@ -546,6 +651,54 @@ def oracle(c, o):
         if e0 == e1 and o["r"] != e0:
             v.append(("expiry", "has_expired = %s for a quote dated now%+.3f s (window %d s, future dates expire)"
                       % (o["r"], c["rel"] / NS, 3600)))
+    elif c["op"] in ("duty", "storecost"):
+        def self_signed(spec, out):
+            """signed by this node's own key over exactly the presented fields (Network::verify ignores pub_key)"""
+            sig = spec["sig"]
+            if "key" not in sig or "truncate" in sig or "flip" in sig or sig["key"] != c["self"]:
+                return False
+            if "of" not in sig:
+                return True
+            of = sig["of"]
+            return (of["content"] == spec["content"] and of["addr"] == spec["addr"] and of["m"] == spec["m"]
+                    and signed_ts_ns(spec, out) == ts_ns(out["ts"]))
+        if c["op"] == "storecost":
+            t = ts_ns(o["q"]["ts"])
+            e0, e1 = expired_at(t, ts_ns(o["now"])), expired_at(t, ts_ns(o["now_after"]))
+            if e0 == e1:
+                want = o["addr_xor"] == c["q"]["content"] and not e0 and self_signed(c["q"], o["q"])
+                if (o["code"] == 0) != want:
+                    v.append(("storecost-accepts" if o["code"] == 0 else "storecost-rejects",
+                              "verify_quote_for_storecost returned %s for a quote [%s] that is %sabout the address, unexpired and "
+                              "signed by this node over its fields" % ("Ok" if o["code"] == 0 else o.get("err"), c.get("family"),
+                                                                        "" if want else "not ")))
+        else:
+            fw = o["forwarded"]
+            if isinstance(fw, dict):
+                v.append(("duty-cmd", "quotes_verification emitted %s" % fw))
+            elif fw is not None:
+                for i in fw:
+                    if i is None:
+                        v.append(("duty-forwards-unknown", "a pair that was not in the batch was handed to the swarm driver"))
+                        continue
+                    spec, out = c["quotes"][i]["q"], o["quotes"][i]
+                    want, sub = quote_want(spec, out, out["peer"])
+                    if not want:
+                        v.append(("subsecond-timestamp" if sub else "duty-forwards-unverified",
+                                  "quotes_verification handed entry %d to the swarm driver to be held against peer %s, but that "
+                                  "quote does not verify for that peer (its key and a signature by it over exactly the presented "
+                                  "fields) [self %s]" % (i, out["peer"][-12:], c.get("family"))))
+                    if out["peer"] == o["self_peer"]:
+                        v.append(("duty-forwards-self", "this node's own quote was handed down"))
+                mine = [i for i, out in enumerate(o["quotes"]) if out["peer"] == o["self_peer"]]
+                ok = False
+                if mine:
+                    t = ts_ns(o["quotes"][mine[0]]["ts"])
+                    e0, e1 = expired_at(t, ts_ns(o["now"])), expired_at(t, ts_ns(o["now_after"]))
+                    ok = (e0 != e1) or (not e0 and self_signed(c["quotes"][mine[0]]["q"], o["quotes"][mine[0]]))
+                if not ok:
+                    v.append(("duty-without-valid-self-quote", "quotes were handed down although this node is not a valid, "
+                              "unexpired quoter of the batch [self %s]" % c.get("family")))
     elif c["op"] == "history":
         acc = {}      # peer -> accepted (timestamp, live_time, payments)
         for i, (d, st) in enumerate(zip(c["deliveries"], o["steps"])):
@@ -652,6 +805,23 @@ def model_term(c, o):
     if c["op"] == "expiry":
         return "agree_signing %s %s && agree_expired %s %s %s" % (
             c_quote(c["q"], o["q"]), cbytes(o["q"]["bfs"]), cN(ts_ns(o["now"])), c_quote(c["q"], o["q"]), cbool(o["r"]))
+    if c["op"] == "storecost":
+        t = ts_ns(o["q"]["ts"])
+        if expired_at(t, ts_ns(o["now"])) != expired_at(t, ts_ns(o["now_after"])):
+            return None
+        return "agree_storecost %s %s %s %s %s %s" % (c_keysys([o["q"]]), cN(ts_ns(o["now"])), cN(c["self"]),
+                                                      c_quote(c["q"], o["q"]), cbytes(o["addr_xor"]), cN(o["code"]))
+    if c["op"] == "duty":
+        fw = o["forwarded"]
+        if isinstance(fw, dict) or (fw is not None and any(i is None for i in fw)):
+            return "false"
+        for out in o["quotes"]:
+            t = ts_ns(out["ts"])
+            if expired_at(t, ts_ns(o["now"])) != expired_at(t, ts_ns(o["now_after"])):
+                return None
+        batch = clist([cpair(cbytes(out["peer"]), c_quote(item["q"], out)) for item, out in zip(c["quotes"], o["quotes"])])
+        return "agree_duty %s %s %s %s %s %s" % (c_keysys(o["quotes"]), cN(ts_ns(o["now"])), cbytes(o["self_peer"]), cN(c["self"]),
+                                                 batch, copt(fw, lambda l: clist([cN(i) for i in l])))
     if c["op"] == "history":
         steps = []
         for d, st in zip(c["deliveries"], o["steps"]):
@@ -675,6 +845,13 @@ def show(c, o):
         return "has_expired %s %s" % (cN(ts_ns(o["now"])), c_quote(c["q"], o["q"]))
     if c["op"] == "historical":
         return "historical_verify %s %s %s %s" % (cN(ts_ns(o["now"])), cN(ts_ns(o["now"])), c_quote(c["a"], o["a"]), c_quote(c["b"], o["b"]))
+    if c["op"] == "duty":
+        batch = clist([cpair(cbytes(out["peer"]), c_quote(item["q"], out)) for item, out in zip(c["quotes"], o["quotes"])])
+        return "match quotes_verification %s %s %s %s %s with Some l => Some (map (fun pq => V.lib.Strs.tohex (fst pq)) l) | None => None end" % (
+            c_keysys(o["quotes"]), cN(ts_ns(o["now"])), cbytes(o["self_peer"]), cN(c["self"]), batch)
+    if c["op"] == "storecost":
+        return "verify_quote_for_storecost %s %s %s %s %s" % (c_keysys([o["q"]]), cN(ts_ns(o["now"])), cN(c["self"]),
+                                                             c_quote(c["q"], o["q"]), cbytes(o["addr_xor"]))
     if c["op"] == "history":
         ds = ["(%s, %s, %s)" % (cN(ts_ns(st["now"])), cN(d["peer"]["key"]), c_quote(d["q"], {"ts": st["ts"], "pk": "", "sig": ""}))
               for d, st in zip(c["deliveries"], o["steps"])]
@@ -696,6 +873,11 @@ def nontrivial(c, o):
         return (c["op"], c.get("family"), o["r"], min(abs(c["rel"]) // NS, 3700))
     if c["op"] == "history":
         return (c["op"], c.get("family"), len(c["deliveries"]), tuple(st["flagged"] for st in o["steps"]))
+    if c["op"] == "duty":
+        fw = o["forwarded"]
+        return (c["op"], c.get("family"), len(c["quotes"]), None if fw is None else len(fw))
+    if c["op"] == "storecost":
+        return (c["op"], c.get("family"), o["code"])
     return (c["op"], c.get("family"), o["r"], o["newer"])
 
 
@@ -734,6 +916,6 @@ def run(ctx):
     robust_pipeline(ctx, "props/C13.v", cases, binary, oracle, model_term, IMPORTS, nontrivial=nontrivial, show=show, shard_size=120,
                  relation="PaymentQuote::{bytes_for_sig,hash,peer_id,check_is_signed_by_claimed_peer,has_expired,"
                           "is_newer_than,historical_verify}, ProofOfPayment::{verify_for,payees,quotes_by_peer,has_expired}, "
-                          "SwarmDriver::verify_peer_quote == Quote.{bytes_for_signing,hash_preimage,quote_peer_id,check_signed,"
+                          "SwarmDriver::verify_peer_quote, ant_node::quote::{quotes_verification,verify_quote_for_storecost} == Quote.{bytes_for_signing,hash_preimage,quote_peer_id,check_signed,"
                           "has_expired,is_newer_than,historical_verify,verify_for,payees,quotes_by_peer,proof_has_expired,"
-                          "verify_peer_quote}")
+                          "verify_peer_quote,quotes_verification,verify_quote_for_storecost}")
